@@ -33,6 +33,8 @@ def run_case(ctx, case_seed, kind=None):
     rng = random.Random(case_seed)
     kind = kind or KINDS[case_seed % len(KINDS)]
     prog = gen_program(rng)
+    if prog['outputs'] and case_seed % 4 == 1:
+        prog['extractor'] = 'ok_calls_output'    # user code that runs after the operation ended (the metadata extractor) uses an intercepted output too
     desc = describe(prog)
     w = {'case_seed': case_seed, 'cassette': kind, 'program': desc}
     with open_box('memory' if kind == 'async' else kind, prefix=rng.choice(['', 'p'])) as box:
